@@ -505,6 +505,62 @@ def corpus_reroot(ctx, e):
     return probs_all
 
 
+def corpus_hostnames(ctx, e):
+    """"whose host is its own host name": scripted layouts in which host names are prefixes / dotted extensions of one another
+    (alpha, alpha.site1, alpha.site1.example.org, alph): the daemon of each host runs two passes with work pending on every
+    node (a released copy, a copy to check, a transfer); the locality oracle judges every step"""
+    import shutil
+    probs_all = []
+    names = ["alpha", "alpha.site1", "alpha.site1.example.org", "alph", "ALPHA"]
+    for me in names:
+        rng = random.Random(f"hostnames-{me}")
+        case = dharness.DWorld.__new__(dharness.DWorld)
+        w = worldmod.World(e)
+        db = w.db
+        for m in (db.StorageTransferAction, db.ArchiveFileCopyRequest, db.ArchiveFileImportRequest, db.ArchiveFileCopy,
+                  db.ArchiveFile, db.ArchiveAcq, db.StorageNode, db.StorageGroup):
+            m.delete().execute()
+        shutil.rmtree(os.path.join(e.tmp, "roots"), ignore_errors=True)
+        acq = w.acq("acq")
+        f1, f2 = w.file(acq, "one.dat", b"one"), w.file(acq, "two.dat", b"two")
+        arcs = [w.node(f"arc{i}", w.group(f"ga{i}"), host="elsewhere", stype="A") for i in range(2)]
+        nodes = []
+        for i, h in enumerate(names):
+            nd = w.node(f"n{i}", w.group(f"g{i}"), host=h, stype="F")
+            nodes.append(nd)
+            w.copy(f1, nd, has="Y", wants="N")       # released; two archive copies exist elsewhere
+            w.copy(f2, nd, has="M")                  # to be checked
+        for f in (f1, f2):
+            for x in arcs:
+                w.copy(f, x, has="Y")
+        case.env, case.rng, case.w = e, rng, w
+        case.hosts = [me]
+        case.daemons = {me: (worldmod.PersistentDaemon if dharness.verif_persistent(e) else worldmod.Daemon)(e, me)}
+        case.marker_state = {x.id: "ok" for x in nodes + arcs}
+        case.tracked, case.view, case.initq = set(), {}, {}
+        case.nodes, case.groups, case.files = nodes + arcs, list(db.StorageGroup.select()), [f1, f2]
+        case.rich = case.multi = case.churn = True
+        case.set_tools("none", "ok")
+        log = [f"daemon configured with host name {me!r}; nodes on hosts {names}"]
+        try:
+            for k in (1, 2):
+                for label, fn in ((f"pass {k}", lambda: case.iterate(me)), (f"tasks {k}", lambda: case.drain(me))):
+                    bt, bc = case.all_trees(), case.copies()
+                    e.set_host(me)
+                    r = fn()
+                    log.append(f"{label}: {r if not isinstance(r, list) else [t[1] for t in r]}")
+                    for p in case.attribute(me, bt, bc):
+                        probs_all.append((p, list(log)))
+        finally:
+            case.close()
+            os.environ["PATH"] = "/usr/local/bin:/usr/bin:/bin"
+        own = [x for x in nodes if x.host == me][0]
+        served = w.file_on(own, f1) is None
+        ctx.case(("hostnames", me), nontrivial=True, sample={"scenario": log} if me == "alpha.site1" else None)
+        ctx.count(f"hostnames:own-node-{'served' if served else 'not-served'}")
+    return probs_all
+
+
 def compare_iterate(ctx, e, rng, n):
     """the first-level steps of `iterateOps` vs the tasks a real update pass queues (fresh daemon, empty queue)"""
     drv = common.Driver()
@@ -609,6 +665,8 @@ def run(ctx):
     with envmod.Env(dbfile=True) as e:     # file database: persistent daemon loops and two-worker passes need threads
         for p, hist in corpus_churn(ctx, e):
             ctx.violation("locality:churn:" + p[:40].replace(" ", "_"), p, {"kind": "churn-scenario", "steps": hist})
+        for p, hist in corpus_hostnames(ctx, e):
+            ctx.violation("locality:hostname:" + p[:40].replace(" ", "_"), p, {"kind": "hostname-scenario", "steps": hist})
         for p, hist in corpus_reroot(ctx, e):
             ctx.violation("locality:reroot:" + p[:40].replace(" ", "_"), p, {"kind": "reroot-scenario", "steps": hist})
         compare_iterate(ctx, e, rng, 200 if ctx.quick() else 4000)
